@@ -76,7 +76,15 @@ fn v1_corruption(idx: u64, rng: &mut Rng, rec: &mut Recorder) {
         }
         _ => &BAD_PORT,
     };
-    let bad = pool[((idx / 12) % pool.len() as u64) as usize];
+    // the fixed pools are enumerated by idx; every other case takes a decoration of the valid
+    // value / a random near-miss instead
+    let generated;
+    let bad: &str = if (idx / 12) % 2 == 1 {
+        generated = bad_spelling(rng, e, v6, &f[e]);
+        &generated
+    } else {
+        pool[((idx / 24) % pool.len() as u64) as usize]
+    };
     // the replacement must keep the field structure and be invalid for this element
     let invalid = match e {
         0 => bad != "PROXY",
@@ -274,9 +282,9 @@ impl Monitor for C12 {
     }
     fn streams(&self, tier: Tier) -> Vec<StreamSpec> {
         vec![
-            stream("c12-v1", tier.n(120, 600_000, 40_000_000)),
+            stream("c12-v1", tier.n(120, 2_000_000, 40_000_000)),
             stream("c12-v1-extra", tier.n(64, 200_000, 10_000_000)),
-            stream("c12-v2", tier.n(2, 300, 20_000)),
+            stream("c12-v2", tier.n(2, 600, 20_000)),
         ]
     }
     fn run_case(&self, stream: &str, idx: u64, seed: u64, rec: &mut Recorder) {
